@@ -620,6 +620,14 @@ def oracle_coords(case, R):
         depth = max(ref[c].depth for c in want_ids)
         R.nontrivial(any(c["ref"] != 0 for c in cards))
         R.label(f"depth={depth}", f"mode={sink.mode}", *(f"type{c['type']}" for c in cards))
+        # what was read belongs to the caller: shifting / overwriting the returned arrays in place (the entry of the
+        # basic system included) leaves a second read of the same text what the first one was
+        keep = {k_: np.array(v_, copy=True) for k_, v_ in got.items()}
+        for v_ in got.values():
+            np.asarray(v_)[...] = -31.0
+        again = nastran.rdcord2cards(io.StringIO(text))
+        R.check(sorted(again) == sorted(keep) and all(np.array_equal(np.asarray(again[k_]), keep[k_]) for k_ in again),
+                "coord_second_read_differs_after_editing_first_result", "")
     finally:
         sink.close()
 
